@@ -92,6 +92,31 @@ def universe():
     add(P, "call_kernel", Q1, {"radius": 40.0, "thickness": 10.0, "volfraction": 0.3, "radius_effective_mode": 2,
                                "structure_factor_mode": 1, "radius_pd": 0.1, "radius_pd_n": 6})
     add(P, "direct", Q2, {"radius": 35.0, "thickness": 5.0, "volfraction": 0.1})
+    # --- P@S with structure factors that carry their own parameters (S details depend on P's mesh layout)
+    P2 = "sphere@squarewell"
+    add(P2, "call_kernel", Q1, {"radius": 50.0, "volfraction": 0.2, "welldepth": 1.5, "wellwidth": 1.2,
+                                "radius_effective_mode": 1})
+    add(P2, "call_kernel", Q1, {"radius": 50.0, "volfraction": 0.2, "welldepth": 1.5, "wellwidth": 1.2,
+                                "radius_effective_mode": 1, "radius_pd": 0.15, "radius_pd_n": 12})
+    add(P2, "call_kernel", Q2, {"radius": 35.0, "volfraction": 0.3, "welldepth": 0.8, "wellwidth": 1.5,
+                                "radius_effective_mode": 0, "radius_effective": 40.0,
+                                "radius_effective_pd": 0.1, "radius_effective_pd_n": 5})
+    add(P2, "direct", Q1, {"radius": 45.0, "volfraction": 0.15, "welldepth": 1.0, "structure_factor_mode": 1})
+    P3 = "cylinder@hayter_msa"
+    add(P3, "call_kernel", Q1, {"radius": 20.0, "length": 120.0, "volfraction": 0.1, "charge": 12.0,
+                                "radius_effective_mode": 1})
+    add(P3, "call_kernel", Q1, {"radius": 20.0, "length": 120.0, "volfraction": 0.1, "charge": 12.0,
+                                "radius_effective_mode": 4, "length_pd": 0.2, "length_pd_n": 8})
+    add(P3, "call_kernel", Q1, {"radius": 20.0, "length": 120.0, "volfraction": 0.1, "charge": 25.0,
+                                "temperature": 310.0, "radius_effective_mode": 2, "radius_pd": 0.1,
+                                "radius_pd_n": 5, "structure_factor_mode": 1})
+    P4 = "vesicle@stickyhardsphere"
+    add(P4, "call_kernel", Q1, {"radius": 80.0, "thickness": 25.0, "volfraction": 0.08, "perturb": 0.05,
+                                "stickiness": 0.3, "radius_effective_mode": 1})
+    add(P4, "call_kernel", Q1, {"radius": 80.0, "thickness": 25.0, "volfraction": 0.08, "perturb": 0.05,
+                                "stickiness": 0.3, "radius_effective_mode": 1, "thickness_pd": 0.1,
+                                "thickness_pd_n": 7})
+    add(P4, "direct", Q2, {"radius": 60.0, "thickness": 20.0, "volfraction": 0.05, "stickiness": 0.5})
     # --- mixture
     Mx = "sphere+cylinder"
     add(Mx, "call_kernel", Q1, {"A_radius": 40.0, "B_radius": 15.0, "B_length": 200.0, "A_scale": 0.5, "B_scale": 2.0})
@@ -110,7 +135,14 @@ def universe():
 
 
 MODEL_KIND = {"sphere": "c", "cylinder": "c", "adsorbed_layer": "python", "guinier_porod": "python",
-              "core_shell_sphere@hardsphere": "product", "sphere+cylinder": "mixture", "core_multi_shell": "c-vector"}
+              "core_shell_sphere@hardsphere": "product", "sphere@squarewell": "product",
+              "cylinder@hayter_msa": "product", "vesicle@stickyhardsphere": "product",
+              "sphere+cylinder": "mixture", "core_multi_shell": "c-vector"}
+# parameters of each model on which a generated step may switch a size distribution on, off or to another length
+DISPERSIBLE = {"sphere": ["radius"], "cylinder": ["radius", "length"],
+               "core_shell_sphere@hardsphere": ["radius", "thickness"], "sphere@squarewell": ["radius"],
+               "cylinder@hayter_msa": ["radius", "length"], "vesicle@stickyhardsphere": ["radius", "thickness"],
+               "sphere+cylinder": ["A_radius", "B_radius", "B_length"], "core_multi_shell": ["radius", "thickness1"]}
 
 
 @st.composite
@@ -126,6 +158,16 @@ def histories(draw):
                                                    "repeat", "clone"]))
         if kind == "eval":
             step = dict(draw(st.sampled_from(U[m])))
+            if (step["op"] in ("call_kernel", "call_Fq", "direct") and m in DISPERSIBLE and not step.get("empty_mesh")
+                    and draw(st.booleans())):
+                # same request with another dispersity layout: changes the mesh offsets every cached
+                # per-component structure depends on
+                pname = draw(st.sampled_from(DISPERSIBLE[m]))
+                npts = draw(st.sampled_from([0, 3, 7, 12]))
+                step["pars"] = dict(step["pars"])
+                step["pars"][pname + "_pd"] = 0.1
+                step["pars"][pname + "_pd_n"] = npts
+                step["relayout"] = True
             steps.append(step)
         elif kind in ("make_kernel", "release_kernel"):
             qs = draw(st.sampled_from([Q1, Q2, QXY]))
@@ -166,7 +208,7 @@ def run_driver(steps):
 
 
 def request_key(step):
-    return {k: v for k, v in step.items() if k not in ("clone", "fresh", "empty_mesh", "target", "noset")}
+    return {k: v for k, v in step.items() if k not in ("clone", "fresh", "empty_mesh", "target", "noset", "relayout")}
 
 
 def oracle(step):
@@ -230,6 +272,8 @@ def check_history(case, rec):
             rec.cls("clone")
         if any(k.endswith(("_pd_n", ".npts")) for k in step["pars"]):
             rec.cls("dispersity")
+        if step.get("relayout"):
+            rec.cls("dispersity-layout-changed")
         key = digest(request_key(step))
         prev = seen.setdefault(step["model"], set())
         if prev - {key}:
